@@ -190,6 +190,86 @@ def task_mid(t):
     return rep
 
 
+def task_reorder(t):
+    """(Pre)image in a SPARSE manager (only the two operands exist) whose dynamic reordering is
+    on, with a request forced at the k-th node creation inside the call; if the request were
+    served the order would become a chosen permutation."""
+    _, k, si, ns, focus = t
+    rep = run.Report()
+    rec = sweep.Rec(rep)
+    x, xp = names_pairs(1)
+    names = (x, xp, 'c_')
+    U = Universe(names)
+    perms = list(itertools.permutations(names))
+    seam = sweep.pick_order_seam()
+    if not seam.available():
+        rep.note('dd.bdd._request_reordering is absent: reordering cannot be forced')
+        return rep
+    fs = list(U.all_functions(names))
+    sets = sorted(set(U.all_functions((x, 'c_'))) | set(U.all_functions((xp, 'c_'))))
+    order = {x: 0, xp: 1, 'c_': 2}
+    mine = sweep.shard(fs, ns)[si]
+    with seam:
+        for ft in mine:
+            if focus is not None and ft != focus:
+                continue
+            for j, fs_ in enumerate(sets):
+                pi = (ft + j) % len(perms)
+                fa = bool((ft + j) % 2)
+                q = (x, xp, 'c_')[: (ft + j) % 3]
+                for rename in ({x: xp}, {xp: x}):
+                    case = dict(task=t[:-1] + (ft,), trans=U.fmt(ft), set=U.fmt(fs_),
+                                rename=rename, qvars=list(q), forall=fa, position=k,
+                                order_if_served=list(perms[pi]))
+                    try:
+                        calls = []
+                        if pre_allowed(U, order, fs_, rename):
+                            calls.append(('preimage', _bdd.preimage,
+                                          expected_pre(U, ft, fs_, rename, q, fa)))
+                        if img_allowed(U, ft, fs_, rename, q):
+                            calls.append(('image', _bdd.image,
+                                          expected_img(U, ft, fs_, rename, q, fa)))
+                        for how, fn_, want in calls:
+                            m = S.new_bdd(dict(order))
+                            b = sweep.Builder(m, U)
+                            ut, us = b.verified(ft), b.verified(fs_)
+                            m.incref(ut)
+                            m.incref(us)
+                            m.configure(reordering=True)
+                            seam.target = {v_: i for i, v_ in enumerate(perms[pi])}
+                            seam.arm((k,))
+                            try:
+                                r = fn_(ut, us, dict(rename), set(q), m, fa)
+                            finally:
+                                seam.disarm()
+                            rep.add('evaluations')
+                            rep.add('nontrivial')
+                            if seam.count >= k:
+                                rep.add('requests_made_inside')
+                            den = O.Den(m, U)
+                            if den(r) != want:
+                                rec('reorder:' + how, '%s denotes the wrong function when a '
+                                    'reordering request is made inside the call' % how, case)
+                            if den(ut) != ft or den(us) != fs_:
+                                rec('reorder-operand:' + how, 'an operand changed', case)
+                            ext = {}
+                            for y_ in (ut, us):
+                                ext[abs(y_)] = ext.get(abs(y_), 0) + 1
+                            m.incref(r)
+                            ext[abs(r)] = ext.get(abs(r), 0) + 1
+                            O.check(m, ext, U)
+                            if not m.configure().get('reordering'):
+                                rec('reorder-config:' + how, 'dynamic reordering is switched off '
+                                    'after the call', case)
+                    except Violation as e:
+                        rec('reorder-broken:' + e.what, e.what, case, **e.detail)
+                    except Exception as e:  # noqa
+                        rec('reorder-exception:' + type(e).__name__, 'raised %r' % (e,), case)
+    if si == 0 and focus is None:
+        rep.sample(dict(kind='(pre)image with a reordering request forced inside', position=k))
+    return rep
+
+
 def task_wide(t):
     """(Pre)images over one or two pairs that sit at HIGH levels of a manager with five
     interleaved pairs (10 declared variables)."""
@@ -587,7 +667,7 @@ def task_three(t):
 
 
 TASKS = dict(one=task_one, t1=task_t1, t2=task_t2, t3=task_t3, three=task_three, mid=task_mid,
-             wide=task_wide, xwide=task_wide)
+             wide=task_wide, xwide=task_wide, reorder=task_reorder)
 
 
 def dispatch(t):
@@ -604,6 +684,7 @@ def plan(tier):
     ts = [('one', 0, None), ('one', 1, None), ('one', '0:rev', None), ('one', '1:K2', None)]
     ts += [('wide', si, 15, None) for si in range(15)]
     ts += [('xwide', si, 7, None) for si in range(7)]
+    ts += [('reorder', k, si, 4, None) for k in (1, 2) for si in range(4)]
     for oi in range(6):
         for si in range(4 if tier == 'quick' else 2):
             ts.append(('mid', oi, si, 8 if tier == 'quick' else 2, None))
